@@ -10,7 +10,8 @@
 (***************************************************************************)
 EXTENDS Matcher, CgtConst, CgtGen, TLC, Json
 
-CONSTANTS BuyQs, SellQs, SplitKinds, EventKinds, MaxCells
+CONSTANTS BuyQs, SellQs, SplitKinds, EventKinds, MaxCells,
+          GenSteps, MaxSplits, MaxEvents   \* GenSteps = TRUE: the ledger is built one day per step (for tlc -simulate)
 
 VARIABLES L, timing, dist, pc, day, si, pool, claimed, hold, rem, legs, err
 avars == <<L, timing, dist, pc, day, si, pool, claimed, hold, rem, legs, err>>
@@ -22,14 +23,32 @@ NonEmpty(g) == Cardinality({d \in Days : g[d].bq # 0}) + Cardinality({d \in Days
 BaseLedgers == {g \in [Days -> BaseCells] : MaxCells = 0 \/ NonEmpty(g) <= MaxCells}
 Marks(kinds) == {[d \in Days |-> 0]} \cup {[d \in Days |-> IF d = x THEN kk ELSE 0] : x \in Days, kk \in kinds}
 
+EmptyLedger == [d \in Days |-> GenCellOf(0, d, 0, 0, 1, 0, 0)]
 Init ==
-  /\ \E g \in BaseLedgers, sp \in Marks(SplitKinds), ev \in Marks(EventKinds) :
-       MInit([d \in Days |-> GenCellOf(0, d, g[d].bq, g[d].sq, 1, sp[d], ev[d])])
+  /\ IF GenSteps
+     THEN \* generator mode: start from the empty ledger; GenStep fills one day per step, then the machine starts
+          /\ ML = EmptyLedger /\ mpc = "gen" /\ mday = 1
+          /\ plot = [a \in Days |-> ZeroPLot] /\ poff = [e \in Days |-> [a \in Days |-> Zero]]
+          /\ lot = [a \in Days |-> ZeroLot] /\ fut = [a \in Days |-> Zero]
+          /\ mpool = [q |-> Zero, c |-> Zero] /\ mheld = Zero /\ mrem = Zero /\ mlegs = <<>> /\ merr = <<>>
+          /\ k = 1 /\ cum = One
+     ELSE \E g \in BaseLedgers, sp \in Marks(SplitKinds), ev \in Marks(EventKinds) :
+            MInit([d \in Days |-> GenCellOf(0, d, g[d].bq, g[d].sq, 1, sp[d], ev[d])])
   /\ L = [s \in {"SEC"} |-> [d \in Days |-> GenCellOf(0, 1, 0, 0, 1, 0, 0)]]
   /\ timing = "end" /\ dist = [s \in {"SEC"} |-> [e \in Days |-> [a \in Days |-> Zero]]]
   /\ pc = "idle" /\ day = 1 /\ si = 1
   /\ pool = [s \in {"SEC"} |-> [q |-> Zero, c |-> Zero]] /\ claimed = [s \in {"SEC"} |-> [a \in Days |-> Zero]]
   /\ hold = [s \in {"SEC"} |-> Zero] /\ rem = Zero /\ legs = <<>> /\ err = <<>>
+
+\* generator mode: choose the cell of day `mday` (at most MaxSplits splits and MaxEvents cost events per ledger)
+GenStep ==
+  /\ mpc = "gen"
+  /\ \E bq \in BuyQs, sq \in SellQs, sp \in SplitKinds \cup {0}, ev \in EventKinds \cup {0} :
+       /\ (sp # 0 => Cardinality({d \in 1..(mday - 1) : ML[d].split # One}) < MaxSplits)
+       /\ (ev # 0 => Cardinality({d \in 1..(mday - 1) : ~IsZero(ML[d].ac) \/ ~IsZero(ML[d].cr)}) < MaxEvents)
+       /\ ML' = [ML EXCEPT ![mday] = GenCellOf(0, mday, bq, sq, 1, sp, ev)]
+  /\ IF mday < N THEN mday' = mday + 1 /\ UNCHANGED mpc ELSE mday' = 1 /\ mpc' = "p_events"
+  /\ UNCHANGED <<plot, poff, lot, fut, mpool, mheld, mrem, mlegs, merr, k, cum>>
 
 \* hand the ledger and the pre-pass result to the abstract machine
 StartAbstract ==
@@ -42,7 +61,7 @@ Enter ==
   /\ pc = "start" /\ pc' = A!EnterPc(1, 1)
   /\ UNCHANGED <<L, timing, dist, day, si, pool, claimed, hold, rem, legs, err>> /\ UNCHANGED mvars
 Next ==
-  \/ ~MTerminated /\ MNext /\ UNCHANGED avars
+  \/ ~MTerminated /\ (MNext \/ GenStep) /\ UNCHANGED avars
   \/ StartAbstract \/ Enter
   \/ pc \notin {"idle", "start"} /\ A!Next /\ UNCHANGED mvars
 Spec == Init /\ [][Next]_<<mvars, avars>>
